@@ -1408,4 +1408,470 @@ theorem dget_entryOf {β : Type} (conv : Str → Str → β) (H v : List Str) (h
   cases (v.tail[i]?).map (conv H.tail[i]) <;> rfl
 
 
+/-! ### rows ending in empty fields -/
+
+/-- trailing all-blank fields dropped (what the line-level strip does to a tab-joined line) -/
+def dtb : List Str → List Str
+  | [] => []
+  | x :: r =>
+    let r' := dtb r
+    if r'.isEmpty && x.all isWs then [] else x :: r'
+
+theorem allWs_of_not_hasNonWs (a : Str) (h : ¬ hasNonWs a = true) : a.all isWs = true := by
+  apply (allWs_iff_not_hasNonWs a).mpr
+  cases hn : hasNonWs a with
+  | true => exact absurd hn h
+  | false => rfl
+
+theorem not_allWs_of_hasNonWs (a : Str) (h : hasNonWs a = true) : a.all isWs = false := by
+  cases hh : a.all isWs with
+  | false => rfl
+  | true => rw [(allWs_iff_not_hasNonWs a).mp hh] at h; cases h
+
+theorem dtb_cons_nonws (a : Str) (r : List Str) (h : hasNonWs a = true) : dtb (a :: r) = a :: dtb r := by
+  simp [dtb, not_allWs_of_hasNonWs a h]
+
+theorem dtb_cons_of_ne_nil (x : Str) (xs : List Str) (h : dtb xs ≠ []) : dtb (x :: xs) = x :: dtb xs := by
+  have : (dtb xs).isEmpty = false := by
+    cases hd : dtb xs with
+    | nil => exact absurd hd h
+    | cons _ _ => rfl
+  simp [dtb, this]
+
+theorem allWs_joinTab_of_dtb_nil (l : List Str) (h : dtb l = []) : (joinTab l).all isWs = true := by
+  induction l with
+  | nil => rfl
+  | cons x xs ih =>
+    simp only [dtb] at h
+    split at h
+    · rename_i hc
+      simp only [Bool.and_eq_true, List.isEmpty_iff] at hc
+      cases xs with
+      | nil => simpa [joinTab] using hc.2
+      | cons y ys =>
+        simp only [joinTab, List.all_append, List.all_cons, Bool.and_eq_true]
+        exact ⟨hc.2, isWs_tab, ih hc.1⟩
+    · cases h
+
+theorem all_strip_nil_of_dtb_nil (l : List Str) (h : dtb l = []) : l.map strip = List.replicate l.length [] := by
+  induction l with
+  | nil => rfl
+  | cons x xs ih =>
+    simp only [dtb] at h
+    split at h
+    · rename_i hc
+      simp only [Bool.and_eq_true, List.isEmpty_iff] at hc
+      simp only [List.map_cons, List.length_cons, List.replicate_succ, ih hc.1]
+      have : strip x = [] := by unfold strip; rw [lstrip_allWs x hc.2]; rfl
+      rw [this]
+    · cases h
+
+/-- the line is the kept fields followed by blanks only -/
+theorem joinTab_dtb (l : List Str) (h : dtb l ≠ []) :
+    ∃ sfx : Str, sfx.all isWs = true ∧ joinTab l = joinTab (dtb l) ++ sfx := by
+  induction l with
+  | nil => exact absurd rfl h
+  | cons x xs ih =>
+    by_cases hxs : dtb xs = []
+    · have hxw : x.all isWs = false := by
+        cases hh : x.all isWs with
+        | false => rfl
+        | true => exact absurd (by simp [dtb, hxs, hh]) h
+      have hdx : dtb (x :: xs) = [x] := by simp [dtb, hxs, hxw]
+      rw [hdx]
+      cases xs with
+      | nil => exact ⟨[], rfl, by simp [joinTab]⟩
+      | cons y ys =>
+        refine ⟨'\t' :: joinTab (y :: ys), ?_, by simp [joinTab]⟩
+        simp only [List.all_cons, Bool.and_eq_true]
+        exact ⟨isWs_tab, allWs_joinTab_of_dtb_nil _ hxs⟩
+    · obtain ⟨sfx, hs, he⟩ := ih hxs
+      refine ⟨sfx, hs, ?_⟩
+      rw [dtb_cons_of_ne_nil x xs hxs]
+      cases xs with
+      | nil => simp [dtb] at hxs
+      | cons y ys =>
+        cases hdy : dtb (y :: ys) with
+        | nil => exact absurd hdy hxs
+        | cons c cs =>
+          rw [hdy] at he
+          simp only [joinTab]
+          rw [he]
+          simp
+
+theorem lastOk_dtb (l : List Str) (h : dtb l ≠ []) : lastOk (dtb l) = true := by
+  induction l with
+  | nil => exact absurd rfl h
+  | cons x xs ih =>
+    by_cases hxs : dtb xs = []
+    · have hxw : x.all isWs = false := by
+        cases hh : x.all isWs with
+        | false => rfl
+        | true => exact absurd (by simp [dtb, hxs, hh]) h
+      have hdx : dtb (x :: xs) = [x] := by simp [dtb, hxs, hxw]
+      rw [hdx]
+      simp only [lastOk]
+      cases hn : hasNonWs x with
+      | true => rfl
+      | false => rw [(allWs_iff_not_hasNonWs x).mpr hn] at hxw; cases hxw
+    · rw [dtb_cons_of_ne_nil x xs hxs]
+      cases hd : dtb xs with
+      | nil => exact absurd hd hxs
+      | cons c cs =>
+        simp only [lastOk]
+        rw [← hd]; exact ih hxs
+
+theorem mem_dtb (l : List Str) (x : Str) (h : x ∈ dtb l) : x ∈ l := by
+  induction l with
+  | nil => simp [dtb] at h
+  | cons a r ih =>
+    simp only [dtb] at h
+    split at h
+    · cases h
+    · rcases List.mem_cons.mp h with h1 | h1
+      · simp [h1]
+      · exact List.mem_cons_of_mem _ (ih h1)
+
+theorem length_dtb_le (l : List Str) : (dtb l).length ≤ l.length := by
+  induction l with
+  | nil => simp [dtb]
+  | cons a r ih =>
+    simp only [dtb]
+    split
+    · simp
+    · simp; exact ih
+
+/-- stripping every field: the dropped fields are the empty text -/
+theorem map_strip_dtb (l : List Str) :
+    l.map strip = (dtb l).map strip ++ List.replicate (l.length - (dtb l).length) [] := by
+  induction l with
+  | nil => simp [dtb]
+  | cons x xs ih =>
+    by_cases hxs : dtb xs = []
+    · by_cases hxw : x.all isWs = true
+      · have hd : dtb (x :: xs) = [] := by simp [dtb, hxs, hxw]
+        rw [hd]
+        simpa using all_strip_nil_of_dtb_nil (x :: xs) hd
+      · have hdx : dtb (x :: xs) = [x] := by simp [dtb, hxs, hxw]
+        rw [hdx]
+        simp only [List.map_cons, List.map_nil, List.length_cons, List.length_nil, List.cons_append, List.nil_append]
+        rw [all_strip_nil_of_dtb_nil xs hxs]
+        simp
+    · rw [dtb_cons_of_ne_nil x xs hxs]
+      simp only [List.map_cons, List.length_cons, List.cons_append]
+      have hlen : xs.length + 1 - ((dtb xs).length + 1) = xs.length - (dtb xs).length := by omega
+      rw [hlen, ← ih]
+
+theorem strip_append_allWs_of_nonws (J sfx : Str) (hJ : hasNonWs J = true) (hs : sfx.all isWs = true) :
+    strip (J ++ sfx) = strip J := by
+  unfold strip
+  rw [lstrip_append_of_nonws J sfx hJ, rstrip_append_allWs _ _ hs]
+
+/-- the fields of a stripped line, when the first field is not blank: the kept fields, stripped -/
+theorem fields_of_stripped_line (o : Opts) (hs : o.suppress = false) (a : Str) (rest : List Str)
+    (ha : hasNonWs a = true) (hq : ∀ v ∈ a :: rest, '\t' ∉ v ∧ QF o v) :
+    (splitOnC '\t' (strip (joinTab (a :: rest)))).map (stripF o) = (dtb (a :: rest)).map strip ∧
+    (strip (joinTab (a :: rest))).head? = (lstrip a).head? := by
+  have hd : dtb (a :: rest) = a :: dtb rest := dtb_cons_nonws a rest ha
+  have hne : dtb (a :: rest) ≠ [] := by rw [hd]; simp
+  obtain ⟨sfx, hsfx, hj⟩ := joinTab_dtb (a :: rest) hne
+  have hlk := lastOk_dtb (a :: rest) hne
+  have hJ : hasNonWs (joinTab (dtb (a :: rest))) = true := hasNonWs_joinTab_of_lastOk _ hlk
+  have hline : strip (joinTab (a :: rest)) = joinTab (mapLast rstrip (mapHead lstrip (a :: dtb rest))) := by
+    rw [hj, strip_append_allWs_of_nonws _ _ hJ hsfx, hd]
+    exact strip_joinTab a (dtb rest) ha (by rw [← hd]; exact hlk)
+  have hQ : ∀ x ∈ mapLast rstrip (mapHead lstrip (a :: dtb rest)), '\t' ∉ x ∧ QF o x := by
+    intro x hx
+    obtain ⟨y, hy, hxy⟩ := mem_mapLast _ _ _ hx
+    obtain ⟨z, hz, hyz⟩ := mem_mapHead _ _ _ hy
+    have hzQ : '\t' ∉ z ∧ QF o z := hq z (mem_dtb _ _ (by rw [hd]; exact hz))
+    have hyQ : '\t' ∉ y ∧ QF o y := by
+      rcases hyz with e | e
+      · rw [e]; exact hzQ
+      · rw [e]; exact ⟨fun hm => hzQ.1 (mem_lstrip _ _ hm), fun hq hm => hzQ.2 hq (mem_lstrip _ _ hm)⟩
+    rcases hxy with e | e
+    · rw [e]; exact hyQ
+    · rw [e]; exact ⟨fun hm => hyQ.1 (mem_rstrip _ _ hm), fun hq hm => hyQ.2 hq (mem_rstrip _ _ hm)⟩
+  constructor
+  · rw [hline, splitOnC_joinTab _ (mapLast_ne_nil _ _ (by simp [mapHead])) (fun x hx => (hQ x hx).1)]
+    have hcongr : (mapLast rstrip (mapHead lstrip (a :: dtb rest))).map (stripF o) =
+        (mapLast rstrip (mapHead lstrip (a :: dtb rest))).map strip := by
+      apply List.map_congr_left
+      intro x hx
+      rw [stripF_eq, hs, if_neg (by simp), uq_of_QF o x (hQ x hx).2]
+    rw [hcongr, map_mapLast rstrip strip _ strip_rstrip, map_mapHead lstrip strip _ strip_lstrip, hd]
+  · rw [hj, strip_append_allWs_of_nonws _ _ hJ hsfx, head?_strip, hd, lstrip_joinTab _ _ ha,
+      head?_joinTab _ _ (lstrip_ne_nil_of_nonws _ ha)]
+
+/-- only the first `n` values of a padded row matter, and those do not see trailing empty fields -/
+theorem take_pad (n : Nat) (X : List Str) : (pad n X).take n = (List.range n).map (fun j => (X[j]?).getD []) := by
+  apply List.ext_getElem?
+  intro j
+  by_cases hj : j < n
+  · have hl : n ≤ (pad n X).length := by unfold pad; simp; omega
+    rw [List.getElem?_take_of_lt hj, List.getElem?_map, List.getElem?_range hj]
+    simp only [Option.map_some]
+    have hjl : j < (pad n X).length := by omega
+    rw [List.getElem?_eq_getElem hjl]
+    have := getD_pad n X j
+    rw [List.getElem?_eq_getElem hjl] at this
+    simpa using this
+  · rw [List.getElem?_eq_none (by simp; omega), List.getElem?_eq_none (by simp; omega)]
+
+theorem getD_append_replicate_nil (A : List Str) (k j : Nat) :
+    ((A ++ List.replicate k ([] : Str))[j]?).getD [] = (A[j]?).getD [] := by
+  by_cases h : j < A.length
+  · rw [List.getElem?_append_left h]
+  · rw [List.getElem?_append_right (by omega), List.getElem?_eq_none (by omega : A.length ≤ j)]
+    by_cases h2 : j - A.length < k
+    · simp [List.getElem?_replicate, h2]
+    · simp [List.getElem?_replicate, h2]
+
+theorem take_pad_append_replicate (n k : Nat) (A : List Str) :
+    (pad n (A ++ List.replicate k [])).take n = (pad n A).take n := by
+  rw [take_pad, take_pad]
+  apply List.map_congr_left
+  intro j _
+  exact getD_append_replicate_nil A k j
+
+
+theorem zip_take_right {β γ : Type} (l1 : List β) (l2 : List γ) : l1.zip l2 = l1.zip (l2.take l1.length) := by
+  induction l1 generalizing l2 with
+  | nil => simp
+  | cons a r ih =>
+    cases l2 with
+    | nil => simp
+    | cons b s => simp only [List.zip_cons_cons, List.length_cons, List.take_succ_cons]; rw [ih]
+
+theorem tail_take_succ {β : Type} (a : List β) (n : Nat) : (a.take (n + 1)).tail = a.tail.take n := by
+  cases a <;> simp
+
+theorem entryOf_congr_take {β : Type} (conv : Str → Str → β) (H a b : List Str)
+    (h : a.take H.length = b.take H.length) : entryOf conv H a = entryOf conv H b := by
+  unfold entryOf
+  cases H with
+  | nil => simp
+  | cons h0 ht =>
+    simp only [List.tail_cons, List.length_cons] at h ⊢
+    rw [zip_take_right ht a.tail, zip_take_right ht b.tail, ← tail_take_succ, ← tail_take_succ, h]
+
+theorem headD_congr_take (n : Nat) (hn : 0 < n) (a b : List Str) (h : a.take n = b.take n) :
+    a.headD [] = b.headD [] := by
+  cases n with
+  | zero => omega
+  | succ m =>
+    cases a <;> cases b <;> simp_all
+
+/-- the row the loop stores for a data line: exactly `rowVals` when blanks are kept, otherwise the
+    kept fields (trailing blank ones removed by the line-level strip) padded -/
+def parsedRow (o : Opts) (n : Nat) (fs : List Field) : List Str :=
+  if o.suppress then rowVals o n fs
+  else pad n ((dtb (fs.map (fun f => uq o f.written))).map strip)
+
+theorem rowOkWide_spec (o : Opts) (fs : List Field) (h : rowOkWide o fs = true) :
+    ∃ f0 rest, fs = f0 :: rest ∧ (∀ f ∈ fs, f.ok = true) ∧ f0.clean ≠ [] ∧ (f0.expect o).head? ≠ some '#' := by
+  simp only [rowOkWide, Bool.and_eq_true, List.all_eq_true] at h
+  obtain ⟨hall, hhead⟩ := h
+  cases fs with
+  | nil => simp at hhead
+  | cons f0 rest =>
+    refine ⟨f0, rest, rfl, hall, ?_, ?_⟩
+    · simp only [List.head?_cons, Bool.and_eq_true, Bool.not_eq_true', List.isEmpty_eq_false_iff] at hhead
+      exact hhead.1
+    · simp only [List.head?_cons, Bool.and_eq_true, bne_iff_ne, ne_eq] at hhead
+      exact hhead.2
+
+theorem rowOk_of_wide_suppress (o : Opts) (fs : List Field) (h : rowOkWide o fs = true) (hs : o.suppress = true) :
+    rowOk o fs = true := by
+  simp only [rowOkWide, Bool.and_eq_true] at h
+  simp only [rowOk, Bool.and_eq_true, h.1, h.2, hs, Bool.true_or, and_self]
+
+theorem row_fields_wide (o : Opts) (fs : List Field) (h : rowOkWide o fs = true) :
+    stripF o (joinTab (fs.map Field.written)) ≠ [] ∧
+    (o.suppress = true → strip (stripF o (joinTab (fs.map Field.written))) ≠ []) ∧
+    (stripF o (joinTab (fs.map Field.written))).head? ≠ some '#' ∧
+    ∀ n, pad n ((splitOnC '\t' (stripF o (joinTab (fs.map Field.written)))).map (stripF o)) = parsedRow o n fs := by
+  cases hs : o.suppress with
+  | true =>
+    obtain ⟨h1, h2, h3, h4⟩ := row_fields o fs (rowOk_of_wide_suppress o fs h hs)
+    refine ⟨h1, fun _ => h2 hs, h3, ?_⟩
+    intro n
+    rw [h4]
+    simp [parsedRow, hs, rowVals]
+  | false =>
+    obtain ⟨f0, rest, hfs, hall, hc0, hhash⟩ := rowOkWide_spec o fs h
+    have hvs : uq o (joinTab (fs.map Field.written)) = joinTab (fs.map (fun f => uq o f.written)) := by
+      rw [uq_joinTab, List.map_map]; rfl
+    have hq : ∀ v ∈ fs.map (fun f => uq o f.written), '\t' ∉ v ∧ QF o v := by
+      intro v hv
+      obtain ⟨f, hf, rfl⟩ := List.mem_map.mp hv
+      exact ⟨fun hm => tab_not_mem_written f (hall f hf) (mem_uq o _ _ hm), QF_uq o _⟩
+    have h0 : hasNonWs (uq o f0.written) = true := hasNonWs_uq_written o f0 (hall f0 (by simp [hfs])) hc0
+    have hvcons : fs.map (fun f => uq o f.written) = uq o f0.written :: rest.map (fun f => uq o f.written) := by
+      rw [hfs]; rfl
+    have hstrip : stripF o (joinTab (fs.map Field.written)) = strip (joinTab (fs.map (fun f => uq o f.written))) := by
+      rw [stripF_eq, hs, if_neg (by simp), hvs]
+    obtain ⟨hfields, hhd⟩ := fields_of_stripped_line o hs (uq o f0.written) (rest.map (fun f => uq o f.written)) h0
+      (by rw [← hvcons]; exact hq)
+    rw [← hvcons] at hfields hhd
+    have hexp0 : stripF o (uq o f0.written) = f0.expect o := by
+      rw [stripF_eq, uq_idem, ← stripF_eq]
+      exact stripF_written o f0 (hall f0 (by simp [hfs]))
+    have hhead : (stripF o (joinTab (fs.map Field.written))).head? = (f0.expect o).head? := by
+      rw [hstrip, hhd, ← head?_strip]
+      rw [stripF_eq, hs, if_neg (by simp), uq_idem] at hexp0
+      rw [hexp0]
+    have hne : stripF o (joinTab (fs.map Field.written)) ≠ [] := by
+      intro e
+      rw [hstrip] at e
+      rw [e] at hhd
+      cases hl : lstrip (uq o f0.written) with
+      | nil => exact lstrip_ne_nil_of_nonws _ h0 hl
+      | cons c r => rw [hl] at hhd; cases hhd
+    refine ⟨hne, (fun hsup => by cases hsup), (by rw [hhead]; exact hhash), ?_⟩
+    intro n
+    rw [hstrip, hfields]
+    simp [parsedRow, hs]
+
+theorem take_parsedRow (o : Opts) (n : Nat) (fs : List Field) (h : rowOkWide o fs = true) :
+    (parsedRow o n fs).take n = (rowVals o n fs).take n := by
+  unfold parsedRow
+  cases hs : o.suppress with
+  | true => simp
+  | false =>
+    simp only [Bool.false_eq_true, if_false]
+    obtain ⟨_, _, _, hall, _, _⟩ := rowOkWide_spec o fs h
+    have hexp : fs.map (Field.expect o) = (fs.map (fun f => uq o f.written)).map strip := by
+      rw [List.map_map]
+      apply List.map_congr_left
+      intro f hf
+      have := stripF_written o f (hall f hf)
+      rw [stripF_eq, hs, if_neg (by simp)] at this
+      exact this.symm
+    unfold rowVals
+    rw [hexp, map_strip_dtb (fs.map (fun f => uq o f.written)), take_pad_append_replicate]
+
+theorem stepLine_row_wide (o : Opts) (st : PState) (fs : List Field) (h : rowOkWide o fs = true) :
+    stepLine o st (GLine.row fs).render =
+      { st with rows := st.rows ++ [parsedRow o st.header.length fs] } := by
+  obtain ⟨h1, h2, h3, h4⟩ := row_fields_wide o fs h
+  simp only [GLine.render]
+  rw [stepLine_data o st _ h1 h2 h3, h4]
+
+theorem okWide_nonrow (o : Opts) (l : GLine) (h : l.okWide o = true) (hr : l.rowFields = none) : l.ok o = true := by
+  cases l with
+  | row fs => simp [GLine.rowFields] at hr
+  | header _ _ => exact h
+  | comment _ => exact h
+  | blank _ => exact h
+
+theorem foldl_body_wide (o : Opts) (H : List Str) (hH : H ≠ []) (body : List GLine) (R : List (List Str))
+    (hok : ∀ l ∈ body, l.okWide o = true) (hnh : ∀ l ∈ body, l.isHeader = false) :
+    (body.map GLine.render).foldl (stepLine o) { header := H, rows := R } =
+      { header := H, rows := R ++ (fileRows body).map (parsedRow o H.length) } := by
+  induction body generalizing R with
+  | nil => simp [fileRows]
+  | cons l r ih =>
+    have hr1 := fun l' hl' => hok l' (List.mem_cons_of_mem _ hl')
+    have hr2 := fun l' hl' => hnh l' (List.mem_cons_of_mem _ hl')
+    simp only [List.map_cons, List.foldl_cons]
+    cases l with
+    | header n t => have := hnh _ (List.mem_cons_self); simp [GLine.isHeader] at this
+    | comment raw =>
+      rw [stepLine_comment o _ raw (okWide_nonrow o _ (hok _ (by simp)) rfl) hH, ih R hr1 hr2, fileRows_cons_comment]
+    | blank raw =>
+      rw [stepLine_blankLine o _ raw (okWide_nonrow o _ (hok _ (by simp)) rfl), ih R hr1 hr2, fileRows_cons_blank]
+    | row fs =>
+      have hrow : rowOkWide o fs = true := by simpa [GLine.okWide] using hok _ (List.mem_cons_self)
+      rw [stepLine_row_wide o _ fs hrow, ih _ hr1 hr2, fileRows_cons_row]
+      simp
+
+theorem fileOkWide_spec (o : Opts) (hdr0 : List Str) (f : List GLine) (h : fileOkWide o hdr0 f = true) :
+    (∀ l ∈ f, l.okWide o = true) ∧
+    ((hdr0 ≠ [] ∧ ∀ l ∈ f, l.isHeader = false) ∨
+     (hdr0 = [] ∧ ∃ pre names trail rest, f = pre ++ GLine.header names trail :: rest ∧
+        (∀ l ∈ pre, isBlankLine l = true) ∧ (∀ l ∈ rest, l.isHeader = false))) := by
+  simp only [fileOkWide, Bool.and_eq_true, List.all_eq_true] at h
+  refine ⟨h.1, ?_⟩
+  cases hdr0 with
+  | cons a r =>
+    left
+    refine ⟨by simp, ?_⟩
+    have := h.2
+    simp only [List.isEmpty_cons, Bool.false_eq_true, if_false, List.all_eq_true, Bool.not_eq_true'] at this
+    exact this
+  | nil =>
+    right
+    refine ⟨rfl, ?_⟩
+    have h2 := h.2
+    simp only [List.isEmpty_nil, if_true] at h2
+    have hsplit := List.takeWhile_append_dropWhile (p := isBlankLine) (l := f)
+    cases hd : f.dropWhile isBlankLine with
+    | nil => rw [hd] at h2; simp at h2
+    | cons l rest =>
+      rw [hd] at h2 hsplit
+      cases l with
+      | header names trail =>
+        refine ⟨_, names, trail, rest, hsplit.symm, ?_, ?_⟩
+        · intro l hl
+          exact mem_takeWhile_p _ _ _ hl
+        · simpa [List.all_eq_true] using h2
+      | comment _ => simp at h2
+      | blank _ => simp at h2
+      | row _ => simp at h2
+
+theorem blank_ok_of_wide (o : Opts) (l : GLine) (h : l.okWide o = true) (hb : isBlankLine l = true) : l.ok o = true := by
+  cases l with
+  | blank _ => exact h
+  | header _ _ => simp [isBlankLine] at hb
+  | comment _ => simp [isBlankLine] at hb
+  | row _ => simp [isBlankLine] at hb
+
+theorem foldl_file_wide (o : Opts) (hdr0 : List Str) (f : List GLine) (h : fileOkWide o hdr0 f = true) :
+    (f.map GLine.render).foldl (stepLine o) { header := hdr0, rows := [] } =
+      { header := fileHeader hdr0 f, rows := (fileRows f).map (parsedRow o (fileHeader hdr0 f).length) } ∧
+    fileHeader hdr0 f ≠ [] := by
+  obtain ⟨hok, hcase⟩ := fileOkWide_spec o hdr0 f h
+  rcases hcase with ⟨hne, hnh⟩ | ⟨he, pre, names, trail, rest, hf, hpre, hrest⟩
+  · have hH : fileHeader hdr0 f = hdr0 := by
+      unfold fileHeader
+      cases hdr0 with
+      | nil => exact absurd rfl hne
+      | cons _ _ => rfl
+    rw [hH]
+    refine ⟨?_, hne⟩
+    have := foldl_body_wide o hdr0 hne f [] hok hnh
+    simpa using this
+  · subst he
+    have hH : fileHeader [] f = names := by
+      unfold fileHeader
+      simp only [List.isEmpty_nil, if_true]
+      rw [hf, find_header pre names trail rest hpre]
+    have hhok : hdrOk names trail = true := by
+      have := hok (GLine.header names trail) (by rw [hf]; simp)
+      simpa [GLine.okWide, GLine.ok] using this
+    have hnne : names ≠ [] := (hdrOk_spec names trail hhok).1
+    rw [hH]
+    refine ⟨?_, hnne⟩
+    rw [hf, List.map_append, List.foldl_append, List.map_cons, List.foldl_cons]
+    rw [foldl_blanks o _ pre hpre (fun l hl => blank_ok_of_wide o l (hok l (by rw [hf]; simp [hl])) (hpre l hl))]
+    rw [stepLine_header o _ names trail hhok rfl]
+    have := foldl_body_wide o names hnne rest [] (fun l hl => hok l (by rw [hf]; simp [hl])) hrest
+    rw [this]
+    simp [fileRows_append, fileRows_blanks pre hpre, fileRows_cons_header]
+
+theorem mem_fileRows_ok (o : Opts) (f : List GLine) (hok : ∀ l ∈ f, l.okWide o = true) (fs : List Field)
+    (h : fs ∈ fileRows f) : rowOkWide o fs = true := by
+  simp only [fileRows, List.mem_filterMap] at h
+  obtain ⟨l, hl, hr⟩ := h
+  cases l with
+  | row fs' =>
+    simp only [GLine.rowFields, Option.some.injEq] at hr
+    subst hr
+    simpa [GLine.okWide] using hok _ hl
+  | header _ _ => simp [GLine.rowFields] at hr
+  | comment _ => simp [GLine.rowFields] at hr
+  | blank _ => simp [GLine.rowFields] at hr
+
+
 end Biom.C18
